@@ -193,7 +193,12 @@ def call(ev, name, args, kwargs, lineno, env):
         a = args[0]
         if is_array(a) and a.kind == "b" and not isinstance(a, Comp):
             return Count(a)
-        raise Unsupported("np.sum of non-mask (line %d)" % lineno)
+        if is_array(a) and not isinstance(a, Comp) and not is_z3(a.n) and not isinstance(a.n, Count):
+            out = 0
+            for k in range(int(a.n)):
+                out = arith("+", out, a.f(k))
+            return out
+        raise Unsupported("np.sum over a symbolic-length array (line %d)" % lineno)
     if name == "exp":
         return m1(V.exp)
     if name == "log":
@@ -207,6 +212,8 @@ def call(ev, name, args, kwargs, lineno, env):
     if name == "power":
         return m2(V.power)
     if name == "arange":
+        if len(args) in (2, 3) and all(isinstance(a, int) and not isinstance(a, bool) for a in args):
+            return ConcreteIdx(range(*args))
         if len(args) != 1:
             raise Unsupported("np.arange with start/step")
         if isinstance(args[0], int) and not isinstance(args[0], bool):
@@ -271,6 +278,8 @@ def call(ev, name, args, kwargs, lineno, env):
                 items = list(a)
                 return Arr(len(items), lambda j, _it=items: _select(_it, j), "f")
             return ObjList(list(a))
+        if is_scalar(a):
+            return a          # 0-d array: behaves like the scalar in the arithmetic that follows
         raise Unsupported("np.array of %r" % (a,))
     if name in ("max", "min"):
         a = args[0]
@@ -508,6 +517,11 @@ def builtin(ev, name, args, kwargs, lineno, env):
         return _isinstance(args[0], args[1])
     if name == "hasattr":
         o, a = args
+        if is_array(o) or isinstance(o, Pit):
+            return a in ("__len__", "shape", "dtype", "astype", "sum", "size") or \
+                (a == "values" and getattr(o, "is_series", False))
+        if is_scalar(o):
+            return False
         if isinstance(o, E.Obj):
             return a in o.attrs
         if hasattr(o, "hasattr_"):
@@ -559,6 +573,8 @@ def builtin(ev, name, args, kwargs, lineno, env):
             if name == "any":
                 return bor(*vals) if any(is_z3(v) for v in vals) else any(vals)
             return band(*vals) if any(is_z3(v) for v in vals) else all(vals)
+        return call(ev, name, args, kwargs, lineno, env)
+    if name in ("any", "all") and is_array(args[0]):
         return call(ev, name, args, kwargs, lineno, env)
     if name == "sum":
         a = args[0]
